@@ -37,7 +37,7 @@ Next ==
        [] e.e = "PcmOut" -> Step(ChkPcmOut(ds[e.d], e), {}, e, ds)
        [] e.e = "ReadP" -> Step(ChkRead(ds[e.d], e), {}, e, Upd(e.d, NxtRead(ds[e.d], e)))
        [] e.e = "Restart" -> Step(ChkRestart(ds[e.d], e), {}, e, Upd(e.d, NxtRestart(ds[e.d], e)))
-       [] e.e = "LapOut" -> Step(ChkLapOut(ds[e.d], e), {}, e, Upd(e.d, NxtUnmodelled(ds[e.d], e)))
+       [] e.e = "LapOut" -> Step(ChkLapOut(ds[e.d], e), DriftLapOut(ds[e.d], e), e, Upd(e.d, NxtLapOut(ds[e.d], e)))
        [] e.e = "InfoClear" ->
             Step((IF e.vch # 0 \/ e.vrate # 0 \/ e.vcs # 0 THEN {"InfoClearEmptiesInfo"} ELSE {}), {}, e, Upd(e.d, InitDec))
        [] e.e = "Twin" -> Step((IF ds[e.d].nh = 3 /\ ds[e.d2].nh = 3 /\ e.eq # 1 THEN {"SameSpectrumSamePcm"} ELSE {}), {}, e, ds)
